@@ -18,6 +18,9 @@ type Prop struct {
 	// through bchd/wire serialisation, which serialises all goroutines on one global channel).
 	// All enumeration of such a check must go through ParFor or be guarded by mc.Shard0().
 	Procs bool
+	// Lookup returns the case with the given (ParFor sequence number, index) of a sharded run, so that
+	// a worker process killed by the runtime can be attributed to the input it was running.
+	Lookup func(c *mc.Ctx, seq, idx int64) (family string, cas any)
 }
 
 var Registry = map[string]*Prop{}
